@@ -5,6 +5,35 @@ ROOT = os.path.dirname(os.path.dirname(os.path.abspath(__file__)))
 ALL = ["C%02d" % i for i in range(1, 21)]
 
 CHECKS = {
+ "C18": dict(
+    category="model_checking",
+    text="The configuration space is enumerated completely: field in {name, path component, link target, method of the first member, "
+         "method of a later member, user, group} x byte class (13 representatives of 0x01-0x1F incl. ESC/BEL/CR/LF/TAB, 0x7F, 0x80-0xFF; "
+         "thorough: all 255 values) x first/later member x mode in {l, lv, v, vv, t, x, xn, xq0, xq1, xq2, p}. Every byte the tool "
+         "writes to stdout and stderr is logged and TLC evaluates the invariant (printable ASCII, LF, CR, TAB) on each; for the "
+         "list modes stdout must in addition equal ListOutput.tla's rendering ('?' exactly where the hostile byte was). Random "
+         "hostile archives (names of any length, hostile wildcard arguments) go through the list commands as well.",
+    design_ref="DESIGN.md section 5, C18",
+    note="File data printed by `p` is kept ASCII so that all output can be checked. Found and fixed: raw method column "
+         "(known_findings.json).",
+    technique="complete enumeration of the (field, byte class, position, mode) configurations; invariant evaluated by TLC on the logged "
+              "output bytes; list output validated against the ListOutput TLA+ spec"),
+ "C19": dict(
+    category="model_checking",
+    text="ListOutput.tla defines the bytes `lha l|lv|v|vv` print: column sets, permission strings (Unix, OS-9, OS name), uid/gid, "
+         "sizes as decimal renderings of 32-bit word pairs, ******/ratio, method+CRC, short and full time stamps by civil-from-days "
+         "arithmetic with the six-month rule, [level], sanitised names and link targets, separators only between columns with a width, "
+         "headings, footer with count, sums mod 2^32 and archive mtime; selection by Glob.tla (TLC checks the C matcher's "
+         "transcription equal to the declarative matcher on all pattern/string pairs up to length 5). For generated archives "
+         "(all levels, sizes 0..2^32-1 incl. packed > original and original = 0, all OS types, full-range permission words, "
+         "uid/gid, stamps around now-15552000, 0, 2^31, 2^32-1, names up to 255 bytes, symlinks, directories) and corpus "
+         "archives, for each of l/lv/v/vv with quiet levels, wildcard lists and several `now`/mtime values, stdout must equal "
+         "the rendering byte for byte.",
+    design_ref="DESIGN.md section 5, C19",
+    note="TZ=UTC; `now` via TEST_NOW_TIME. The ratio digits come from a float32 emulation in the harness (not TLA+). Header records "
+         "are those the library returns.",
+    technique="TLA+ executable rendering (ListOutput, Glob) compared byte for byte with the tool's stdout by TLC trace validation; "
+              "TLC model checking of the wildcard matcher"),
  "C05": dict(
     category="model_checking",
     text="Header.tla defines Parse(bytes) for levels 0-3 from the format (field offsets, extended-header chains with last-one-wins, "
